@@ -532,7 +532,9 @@ def judge_runtime(R, S, tier, seed, props, given=None):
             elif invoked_fail:
                 if not rs.get("Err"):
                     viol("C06", None, "%s: invoked provider %s returned an error but the injector returned no error (result %s)" % (sp["Name"], pid(f), rs.get("Term")))
-                elif rs["Err"] != "prov:" + pid(f):
+                elif rs["Err"] not in ["prov:" + x for x in failed]:
+                    # (any provider that really failed will do: a provider that honours its context fails too once the
+                    # errgroup has cancelled it)
                     fid = "K6-main-ctx-wait-substitutes-error" if (kc["K6"] and rs["Err"] == "ctx:canceled") else None
                     viol("C06", fid, "%s: provider %s failed but the injector returned %s instead of that failure%s" % (
                         sp["Name"], pid(f), rs["Err"], " (main-thread ctx-aware wait observed the errgroup's cancellation)" if fid else ""))
@@ -655,6 +657,70 @@ def model_search(R, S, prop, diffs, seed):
             return
     R.coverage["model_search_states"] = total
 
+def conformance(R, S, specs, results, limit=4000):
+    """Tier 1's own tie: what the compiled injector did in every run must be one of the outcomes the interleaving
+    semantics KV.T1F allows for the model's emission of that declaration under that failure set / cancellation
+    (enumerated by the driver's `X` request through T1F.stepList, proved equivalent to T1F.Step)."""
+    import itertools
+    cache = {}
+    queries = []
+    plan = []
+    for sp, rs in list(zip(specs, results))[:limit]:
+        k = sp["k"]
+        line = S["E"].decls[k]
+        ret, provs = G.parse_decl(line)
+        vids = S["E"].M.value_ids.get(k, set())
+        sup = PC.suppliers(ret, provs)
+        need, _ = PC.needed(ret, provs, sup)
+        needed_p = sorted(x[1] for x in need if x[0] == 'P')
+        fails = sorted(int(re.match(r"D\d+P(\d+)$", f).group(1)) for f in (sp.get("Fail") or {}))
+        cancel = 1 if sp.get("CancelOn") else 0
+        # fallible providers that are handed the context return its error once it is done (rendered that way):
+        # for the semantics that is a failure of that provider
+        hon = [i for i in needed_p if provs[i]['e'] and 0 in provs[i]['req'] and i not in vids and i not in fails][:3]
+        alts = []
+        for r in range(len(hon) + 1):
+            for hs in itertools.combinations(hon, r):
+                key = (line, tuple(sorted(fails + list(hs))), cancel)
+                alts.append((key, set(hs)))
+                if key not in cache:
+                    cache[key] = None
+                    queries.append(key)
+        plan.append((sp, rs, alts))
+    out = C.lean_driver(["X %s | fails %s | cancel %d" % (l, " ".join(map(str, f)), c) for l, f, c in queries], timeout=3600)
+    for key, o in zip(queries, out):
+        cache[key] = o
+    bad, fuel, n = [], 0, 0
+    for sp, rs, alts in plan:
+        if rs.get("Panic"):
+            continue
+        n += 1
+        if not rs.get("Returned"):
+            obs = "stuck"
+        else:
+            e = rs.get("Err") or ""
+            m = re.match(r"prov:D\d+P(\d+)$", e)
+            obs = "value" if not e else ("err:P%s" % m.group(1) if m else ("err:ctx" if e.startswith("ctx:") else "err:other"))
+            if rs.get("Leaked", 0) > 0:
+                obs += "+leak"
+        allowed = set()
+        exhausted = False
+        for key, hs in alts:
+            o = cache.get(key) or ""
+            if " FUEL" in o:
+                exhausted = True
+            for tok in o.replace(" FUEL", "").split()[1:]:
+                allowed.add(tok)
+        if exhausted:
+            fuel += 1
+            continue
+        if obs not in allowed:
+            bad.append((sp["Name"], {a: b for a, b in sp.items() if a in ("kind", "Fail", "CancelOn", "DelayIn")}, obs, sorted(allowed), S["E"].decls[sp["k"]]))
+    R.oblige("conformance: the outcome of every run of a compiled injector is one the interleaving semantics T1F allows for the model's emission (%d runs, %d skipped: search fuel)" % (n, fuel),
+             not bad, "%d runs outside the model's outcome set; first: %s" % (len(bad), bad[:1]))
+    R.coverage["semantics_conformance"] = {"runs": n, "outside": len(bad), "skipped_fuel": fuel, "model_queries": len(queries)}
+    return bad
+
 def run_failure_property(prop, tier, seed, note):
     R = C.Result(prop, tier, seed)
     repo_dir = C.ensure_repo_build()
@@ -664,6 +730,9 @@ def run_failure_property(prop, tier, seed, note):
     R.oblige("correspondence: text of the emitted functions = model emission (wait flavours, error checks, closes, eg.Wait form) on %d declarations" % len(S["ok"]),
              not diffs, "%d differ; first: %s" % (len(diffs), [d[1:] for d in diffs[:1]]))
     n, stats = judge_runtime(R, S, tier, seed, {prop})
+    conf_bad = []
+    if S.get("runtime", (None,))[0] is not None:
+        conf_bad = conformance(R, S, S["runtime"][0], S["runtime"][1])
     if diffs and not R.violations and S.get("runtime", (None,))[0] is not None:
         # the emitted code is not what the model says: search the differing declarations for a run that breaks the property
         ks = [i for i, l, a, b in sorted(diffs, key=lambda d: len(d[1]))[:40] if b.startswith("OK") and "Init%d" % i in S["extract"]]
@@ -676,6 +745,12 @@ def run_failure_property(prop, tier, seed, note):
     if diffs and not R.violations:
         # exhaustive search over schedules x failure sets x cancellation of the *extracted* programs that differ
         model_search(R, S, prop, diffs, seed)
+    if conf_bad and not R.violations:
+        nm, spc, obs, allowed, decl = conf_bad[0]
+        R.violation("%d runs of compiled injectors ended in a way the semantics T1F does not allow for the model's emission (e.g. %s under %s: observed %s, allowed %s); the property itself held in every run" % (
+                        len(conf_bad), nm, spc, obs, allowed),
+                    {"kind": "correspondence-broken", "correspondence": "T1F semantics (Lean, executable form proved equivalent) vs the Go runtime on compiled injectors",
+                     "first": [dict(injector=a, spec=b, observed=c, allowed=d, declaration=e) for a, b, c, d, e in conf_bad[:5]]})
     if diffs and not R.violations:
         i, l, a, b = diffs[0]
         R.violation("emitted code differs from the model's emission on %d declarations; no run of the compiled injectors violated the property" % len(diffs),
